@@ -80,6 +80,15 @@ def describe(prog, t, depth=0):
     return k
 
 
+def pool_key(key):
+    """Key under which audited entries and open sites are matched: no ordinal, no parameter positions, and for arithmetic overflow only the
+    function and the operation (the operands of a sum can be regrouped freely without changing what may overflow)."""
+    k = re.sub(r"#\d+$", "", key)
+    k = re.sub(r"\barg\d+", "arg", k)
+    k = re.sub(r"/(overflow:[A-Za-z]+)\(.*\)$", r"/\1", k)
+    return k
+
+
 def coarse(prog, t, depth=0):
     """Coarse, expression-independent descriptor used in site keys: access path of the operand (indices elided),
     producer name for call results, type for locals."""
@@ -494,10 +503,11 @@ class NoPanic:
             if self._audit_pool is None:
                 self._audit_pool = {}
                 for k2, e2 in self.audited.items():
-                    self._audit_pool.setdefault(re.sub(r"#\d+$", "", k2), []).append(k2)
+                    self._audit_pool.setdefault(pool_key(k2), []).append(k2)
                 for lst in self._audit_pool.values():
                     lst.sort()
-            pool = self._audit_pool.get(base, [])
+            # parameter positions are not part of a site's identity (dropping an unused `&self` must not rename the site)
+            pool = self._audit_pool.get(pool_key(base), [])
             if key in pool:
                 akey = key
             elif pool:
@@ -691,6 +701,13 @@ class NoPanic:
             if u <= 2 ** 32:
                 return self.rec(fn, b, "str-repeat", coarse(P, args[1]), "proved", "count <= %s" % u)
             return self.rec(fn, b, "str-repeat", coarse(P, args[1]), "open", "repeat count unbounded")
+        if name in ("copy_from_slice", "clone_from_slice") and len(args) == 2:
+            ld, ls = ("len", args[0]), ("len", args[1])
+            if B.le(ld, ls, 0, b) and B.le(ls, ld, 0, b):
+                return self.rec(fn, b, name, coarse(P, args[1]), "proved", "source and destination have the same length")
+        if name in ("split_at", "split_at_mut") and len(args) == 2:
+            if B.le(args[1], ("len", args[0]), 0, b):
+                return self.rec(fn, b, name, coarse(P, args[1]), "proved", "mid <= len")
         if name in ("copy_from_slice", "split_at", "split_at_mut", "swap", "remove", "insert", "drain", "truncate_exact", "borrow_mut", "borrow") and not sp.startswith("std::collections"):
             if name in ("insert",) and "hash" in sp:
                 return
@@ -709,6 +726,21 @@ class NoPanic:
         ev = B.ev
         W = self.W
         x = args[0]
+        # `v.map(f).unwrap()`, `v.ok().unwrap()`, `v.as_ref().unwrap()` ... fail exactly when `v` is None/Err: the site is about v
+        a0 = (t["args"][0].get("mv") or t["args"][0].get("cp")) if t["args"] else None
+        for _hop in range(4):
+            if not a0 or a0.get("p"):
+                break
+            ds = [d for d in fn.defs().get(a0["l"], []) if d[2] == "whole"]
+            if len(ds) != 1 or ds[0][1] != "term":
+                break
+            tt0 = fn.blocks[ds[0][0]].term
+            if tt0["k"] == "call" and callee_name(tt0["fn"].get("path", "")) in ("map", "ok", "ok_or", "ok_or_else", "as_ref", "as_mut", "as_deref", "copied", "cloned", "map_err") \
+                    and ("option::Option" in tt0["fn"].get("path", "") or "result::Result" in tt0["fn"].get("path", "")) and tt0["args"]:
+                x = ev.call_args(ds[0][0])[0]
+                a0 = tt0["args"][0].get("mv") or tt0["args"][0].get("cp")
+                continue
+            break
         xs = values.strip_payload(x)
         desc = coarse(P, xs)
         rels = flow.rel_facts_at(B.IN, b)
